@@ -25,6 +25,11 @@ CHECKS = {
          "Runs WatermarkedStream on every timestamp sequence of a small dense domain (exhaustively up to a stated length, randomly beyond) under every watermark/late-data configuration and checks, after every add_event, monotonicity, the watermark value, the late/on-time decision, routing by unique event id and the counter identities. Held = no step of any explored sequence broke a clause.",
          "Trusts the harness's shadow bookkeeping (ids, max timestamp) and that lateness <= bound is 'allowed'. Says nothing about Periodic/Custom strategies (wall-clock driven, not in the statement).",
          "DESIGN.md §5 C13"),
+ "C20": ("fault_enumeration",
+         "reference-model history monitor under an LD_PRELOAD virtual clock (exhaustive small scope + seeded random, also real clock) + strace fault enumeration of a real checkpoint() call (SIGKILL before every syscall, ENOSPC/EIO on every syscall, every byte-prefix / zero-filled tail of the state file) with a fresh-store restore oracle",
+         "Runs the real StateStore (file backend) on every op sequence of a stated 21-letter alphabet up to length 5/6 and on random histories of up to 10 ops over 3 keys, comparing every public view with an independent model after each op and the store with the recorded snapshot after each restore; then kills a child on entry to each syscall its checkpoint() issues (observed with strace), fails each of those syscalls with ENOSPC/EIO and cuts the state file at every byte, each time requiring that fresh stores restore all earlier checkpoints exactly and the interrupted one completely or not at all. Held = none of the executions listed in the evidence broke a clause.",
+         "Crash = process death between syscalls; torn writes and lost page cache approximated by byte prefixes and zero tails (no block reordering, no fsync/power-loss model). TTL boundary instant, TTL restart on update, TTL after restore and upsert are treated as open. Real-clock collisions are timing dependent, frozen-clock ones deterministic. Needs strace and the clock shim, otherwise inconclusive (exit 3).",
+         "DESIGN.md §5 C20"),
 }
 
 def main():
